@@ -1351,6 +1351,9 @@ KEY_LINES = ['wf1:', '  wf1:', "  'wf1':", '  "wf1" :  # c', 'wf1 :', 'wf1: {a: 
 def suite_key_of(ctx, texts):
     """Model/Slice.v key_of / is_content vs parser._key_of / _is_content (the regular expression of the repaired slicer)."""
     P = boot()['parser']
+    if not hasattr(P, '_key_of') or not hasattr(P, '_is_content'):
+        ctx.obligation('correspondence:key_of', False, 'parser._key_of / _is_content not found: the slicer is not the one Model/Slice.v mirrors')
+        return
     rng = ctx.rng
     lines = list(KEY_LINES)
     pool = [l for t in texts for l in t.split('\n')]
